@@ -59,6 +59,11 @@ def generate(rng, tier, shard, nshards):
         if rng.random() < 0.4:
             kw["reference_gravitational_vector"] = np.array([0.0, 0.0, gens.logu(rng, 1.0, 20.0)]) if rng.random() < 0.5 else gens.vec3(rng, 1.0, 20.0)
             kw["reference_magnetic_vector"] = gens.vec3(rng, 1e3, 6e4)
+        if not given and rng.random() < 0.5:        # options of the random-trajectory generator
+            if rng.random() < 0.5:
+                kw["span"] = (float(-rng.uniform(0.2, 1.2)), float(rng.uniform(0.2, 1.2)))
+            if rng.random() < 0.4:
+                kw["yaw"] = float(rng.uniform(-170, 170))
         Q = smooth_quats(rng, N, 1.0 / freq) if given else None
         yield Case("Sensors(quaternions=)" if given else "Sensors(num_samples=)", ("given" if given else "random") + (":noisy" if noisy else ":noise-free"),
                    Q=Q, N=N, freq=freq, kw=kw, seed=int(rng.integers(2**31)))
@@ -116,6 +121,12 @@ def judge(ctx, s, p, kw):
         d = np.minimum(np.abs(Q - p["Q"]).max(axis=1), np.abs(Q + p["Q"]).max(axis=1)).max()
         ctx.le("ground-truth quaternions are the given ones", d, 1e-15)
     ctx.le("quaternions are unit", np.abs(np.linalg.norm(Q, axis=1) - 1).max(), 1e-12)
+    if "yaw" in kw:
+        ctx.le("yaw= fixes the heading of the whole random trajectory (deg)", float(np.abs(np.degrees(np.array(s.ang_pos, float)[:, 2]) - kw["yaw"]).max()), 1e-9, {"yaw": kw["yaw"]})
+    if "span" in kw:
+        ap_ = np.array(s.ang_pos, float)
+        cols = ap_[:, :2] if "yaw" in kw else ap_
+        ctx.ok("span= bounds the random angular positions", bool(cols.min() >= kw["span"][0] - 1e-9 and cols.max() <= kw["span"][1] + 1e-9), {"span": kw["span"], "min": float(cols.min()), "max": float(cols.max())})
     ctx.le("rotations[i] = R(quaternions[i])", max(np.abs(R[i] - rq.refR(Q[i])).max() for i in range(N)), 1e-13)
     ap = np.array(s.ang_pos, float)
     cp = np.abs(np.cos(ap[:, 1]))
